@@ -1,5 +1,6 @@
 import ProbLogModel.Core.Proto
 import ProbLogModel.TermEq
+import ProbLogModel.TermCache
 open ProbLogModel.Proto ProbLogModel.TermEq
 
 /-
@@ -21,6 +22,20 @@ partial def parseTm : SExp → Option Tm
   | .list [.atom "cl", a, b] => do pure (.clause (← parseTm a) (← parseTm b))
   | _ => none
 
+/- hist F TAILLEN op*   (op ::= h | s | r | (f N))  ->  presence of the memo fields (hash sig len repr) after each op -/
+def parseOp : SExp → Option ProbLogModel.TermCache.Op
+  | .atom "h" => some .hash
+  | .atom "s" => some .sig
+  | .atom "r" => some .str
+  | .list [.atom "f", n] => n.nat?.map .setFunctor
+  | _ => none
+
+def histOut (f t : Nat) (ops : List ProbLogModel.TermCache.Op) : String :=
+  let (_, out) := ops.foldl (fun (acc : ProbLogModel.TermCache.St × List String) op =>
+    let s' := (ProbLogModel.TermCache.step acc.1 op).1
+    (s', acc.2 ++ [ProbLogModel.TermCache.presence s'])) ({ functor := f, tailLen := t }, [])
+  ",".intercalate out
+
 def step (_ : Unit) (line : String) : Unit × String :=
   let out : String :=
     match parseLine line with
@@ -31,6 +46,10 @@ def step (_ : Unit) (line : String) : Unit × String :=
          renderList [toString (eqTop a b), toString (eqTop b a), quote (implOf a b), toString (hashEq fix a b),
                      toString (ground a), toString (ground b), toString (unifyId a b)]
        | _, _ => "bad-op")
+    | some (.atom "hist" :: f :: tl :: ops) =>
+      (match f.nat?, tl.nat?, ops.mapM parseOp with
+       | some f, some tl, some ops => histOut f tl ops
+       | _, _, _ => "bad-op")
     | _ => "bad-op"
   ((), out)
 
